@@ -186,10 +186,18 @@ class BaseValidator(object):
                 if first_error is not None:
                     raise first_error
             finally:
-                for check in self.cid.check_map.values():
-                    check.cleanup()
                 # Mark as closed even if a check failed so a second close() does nothing.
                 self._is_closed = True
+                # Clean up every check, even if cleaning up an earlier one fails; report the first failure.
+                first_cleanup_error = None
+                for check in self.cid.check_map.values():
+                    try:
+                        check.cleanup()
+                    except Exception as error:
+                        if first_cleanup_error is None:
+                            first_cleanup_error = error
+                if (first_cleanup_error is not None) and (first_error is None):
+                    raise first_cleanup_error
 
 
 class Reader(BaseValidator):
